@@ -171,7 +171,34 @@ func idSet(it interface {
 
 // c11Check expresses the genome and compares everything; returns "" or the first discrepancy.
 func c11Check(g *GenomeSpec) (msg string, queries int64) {
+	return c11CheckN(g, false)
+}
+
+// c11CheckN: with again set, the genome is expressed twice and the SECOND network is examined (expressing a
+// genome must not depend on, or disturb, an earlier expression of the same genome).
+func c11CheckN(g *GenomeSpec, again bool) (msg string, queries int64) {
 	gen := g.Build()
+	var first *network.Network
+	if again {
+		first, _ = gen.Genesis(g.ID + 1)
+	}
+	defer func() {
+		if msg == "" && first != nil {
+			want := 0
+			for _, gn := range g.Genes {
+				if gn.En {
+					want++
+				}
+			}
+			got := 0
+			for _, n := range first.BaseNodes() {
+				got += len(n.Incoming)
+			}
+			if got != want {
+				msg = fmt.Sprintf("expressing the genome a second time changed the first network: it now has %d links, the genome has %d enabled genes", got, want)
+			}
+		}
+	}()
 	net, err := gen.Genesis(g.ID)
 	if len(g.Genes) == 0 {
 		if err == nil {
@@ -538,6 +565,14 @@ func runC11(c *Ctx) {
 			n++
 			if msg == "" && code%7 == 0 {
 				msg = c11Organism(g)
+			}
+			if msg == "" && code%5 == 0 {
+				var q2 int64
+				msg, q2 = c11CheckN(g, true)
+				q += q2
+				if msg != "" {
+					msg = "second expression of the same genome: " + msg
+				}
 			}
 			if msg != "" {
 				params := map[string]interface{}{}
